@@ -63,23 +63,31 @@ def r1(ctx):
         ctx.check("R1", f"{f.site()}::definition", ok, f"{name} == {want}",
                   f"{name} is `{U(e)[:120]}`, which does not normalise to its definition `{want}`")
     f = ctx.fn(f"{ME}.inter_chain_mse_variance")
-    loops = [n for n in walk_own(f.node) if isinstance(n, ast.For)]
+    from engine import builders as B
+    try:
+        ps = B.paths(f.node)
+    except B.Unsupported as e:
+        raise AnalysisError(f"{f.site()}: {e} - the per-chain values are not collected in a recognised idiom")
+    ctx.need(len(ps) == 1 and ps[0][1] is not None, f"{f.site()}: a single returning path expected")
+    conds, ret, env, checks = ps[0]
     ok = False
-    if len(loops) != 1:
-        raise AnalysisError(f"{f.site()}: per-chain loop is not in this method (helper with control flow?) - cannot normalise the per-chain value")
-    detail = "loop does not iterate np.unique(self.chain_ids)"
-    if len(loops) == 1 and N.key(loops[0].iter) == N.key(parse_expr("np.unique(self.chain_ids)")):
-        c = U(loops[0].target)
-        lenv = {n.targets[0].id: n.value for n in loops[0].body if isinstance(n, ast.Assign) and isinstance(n.targets[0], ast.Name)}
-        app = [x for x in calls(loops[0], tail="append")]
-        if len(app) == 1:
-            v = inline_calls(inline(app[0].args[0], lenv), ctx.R, f.mod, class_q=ME)
-            want = parse_expr(f"((self.predictions[:, self.chain_ids == {c}] - self.observations[:, None]) ** 2).mean()")
-            acc = U(app[0].func.value)
-            r = returns(f.node)
-            okr = len(r) == 1 and N.key(r[0].value) in (N.key(parse_expr(f"np.var(np.array({acc}))")), N.key(parse_expr(f"np.var({acc})")))
-            ok = N.key(v) == N.key(want) and okr
-            detail = f"per-chain value `{U(v)[:100]}`, result `{U(r[0].value) if r else None}`"
+    detail = "the result is not np.var over the list of per-chain values"
+    inner = ret
+    if isinstance(inner, ast.Call) and call_name(inner) == "np.var" and len(inner.args) == 1 and not inner.keywords:
+        inner = inner.args[0]
+        while isinstance(inner, ast.Call) and call_name(inner) in ("np.array", "np.asarray", "list") and len(inner.args) == 1:
+            inner = inner.args[0]
+        comp = B.resolve(inner, env)
+        if isinstance(comp, (ast.ListComp, ast.GeneratorExp)) and len(comp.generators) == 1 and not comp.generators[0].ifs and isinstance(comp.generators[0].target, ast.Name):
+            g_ = comp.generators[0]
+            c = g_.target.id
+            if N.key(g_.iter) == N.key(parse_expr("np.unique(self.chain_ids)")):
+                v = inline_calls(comp.elt, ctx.R, f.mod, class_q=ME)
+                want = parse_expr(f"((self.predictions[:, self.chain_ids == {c}] - self.observations[:, None]) ** 2).mean()")
+                ok = N.key(v) == N.key(want)
+                detail = f"per-chain value `{U(v)[:100]}`"
+            else:
+                detail = f"chains are enumerated by `{U(g_.iter)}`, not np.unique(self.chain_ids)"
     ctx.check("R1", f"{f.site()}::definition", ok, "var over chains of mean((p[:, chain_ids == c] - o[:,None])^2) for every unique c",
               f"inter-chain variance is not the variance of per-chain overall MSEs selected on the theta axis: {detail}")
 
@@ -165,43 +173,129 @@ def r3(ctx):
 
 
 def r4(ctx):
+    """synergy rows: (sample, treatments, observation) of the non-single-agent rows; per row the effects of its non-control
+    treatments are looked up; strict raises on a missing one, lenient skips the whole row; emitted value = prod(effects) - obs"""
+    from engine import rowstream as RS
+    from engine.astutil import stmt_conditions
     f = ctx.fn("synergy.calculate_synergy")
     N = Norm(strict=False)
-    loops = [n for n in walk_own(f.node) if isinstance(n, ast.For) and isinstance(n.iter, ast.Call) and call_name(n.iter) == "enumerate"]
-    ctx.need(len(loops) == 1, f"{f.site()}: row loop not found")
-    lp = loops[0]
-    syn = [n for n in walk_own(lp) if isinstance(n, ast.Assign) and U(n.targets[0]) == "synergy"]
-    ctx.need(len(syn) == 1, f"{f.site()}: synergy assignment not found")
-    obs_var = U(lp.target.elts[1].elts[2])
-    ok = N.key(syn[0].value) in (N.key(parse_expr(f"np.prod(single_effects) - {obs_var}")), N.key(parse_expr(f"np.product(single_effects) - {obs_var}")))
-    ctx.check("R4", f"{f.site()}::bliss", ok, "synergy = prod(single effects) - observation", f"synergy is `{U(syn[0].value)}`")
-    # row wiring: the zipped triple is (sample, treatments, observation) of the non-single-agent rows
-    z = lp.iter.args[0]
-    env = single_defs(f.node)
-    zs = [U(inline(a, {k: v for k, v in env.items() if k != "single_treatment_mask"})).replace(" ", "") for a in z.args] if isinstance(z, ast.Call) and call_name(z) == "zip" else []
-    s, t, o = f.params[0], f.params[1], f.params[2]
+    s_, t_, o_ = f.params[0], f.params[1], f.params[2]
+    env = {k: v for k, v in single_defs(f.node).items() if k != "single_treatment_mask"}
+    MAP = "single_treatment_effect_map"
+    # the row loop: the loop (over a zip of the three columns) that contains the effect lookup
+    def zip_of(lp_):
+        it_ = lp_.iter
+        if isinstance(it_, ast.Call) and call_name(it_) == "enumerate" and len(it_.args) == 1:
+            it_ = it_.args[0]
+        it_ = inline(it_, env) if isinstance(it_, ast.Name) else it_
+        return it_ if isinstance(it_, ast.Call) and call_name(it_) == "zip" and len(it_.args) == 3 else None
+    row_loops = [n for n in walk_own(f.node) if isinstance(n, ast.For) and zip_of(n) is not None]
+    ctx.need(len(row_loops) == 1, f"{f.site()}: row loop (a zip of the three input columns) not found")
+    lp = row_loops[0]
+    zs = [U(inline(a, env)).replace(" ", "") for a in zip_of(lp).args]
     m = "single_treatment_mask"
-    ok = zs == [f"{s}[~{m}]", f"{t}[~{m},:]", f"{o}[~{m}]"]
+    ok = zs in ([f"{s_}[~{m}]", f"{t_}[~{m},:]", f"{o_}[~{m}]"], [f"{s_}[~{m}]", f"{t_}[~{m}]", f"{o_}[~{m}]"])
     ctx.check("R4", f"{f.site()}::rows", ok, "iterates (sample, treatments, observation) of the rows that are not single-agent rows, aligned",
               f"the row loop zips {zs}")
-    # skip rule: after collecting effects, rows with fewer effects than non-control treatments are skipped
-    skip = [n for n in lp.body if isinstance(n, ast.If) and any(isinstance(x, ast.Continue) for x in n.body) and n.lineno < syn[0].lineno]
-    want = N.b(parse_expr("len(current_treatment_ids) != len(single_effects)"))
-    ok = any(N.b(n.test) == want for n in skip)
-    ctx.check("R4", f"{f.site()}::skip-incomplete-rows", ok, "a row is skipped unless every non-control treatment has a single-agent effect",
-              f"the skip test before the synergy is {[U(n.test) for n in skip]}: a row lacking only some of its single-agent effects must be skipped too "
+    tgt = lp.target.elts[1] if call_name(lp.iter) == "enumerate" else lp.target
+    ctx.need(isinstance(tgt, ast.Tuple) and len(tgt.elts) == 3, f"{f.site()}: row loop target is not (sample, treatments, observation)")
+    sid_var, tids_var, obs_var = [U(x) for x in tgt.elts]
+    lenv = {}
+    cnt = {}
+    for n in walk_own(lp):
+        if isinstance(n, ast.Assign) and len(n.targets) == 1 and isinstance(n.targets[0], ast.Name):
+            cnt[n.targets[0].id] = cnt.get(n.targets[0].id, 0) + 1
+            lenv[n.targets[0].id] = n.value
+    lenv = {k: v for k, v in lenv.items() if cnt[k] == 1}
+    # emission
+    emits = [c for c in calls(lp, tail="append") if U(c.func.value) == "result_synergy"]
+    ctx.need(len(emits) == 1, f"{f.site()}: result_synergy.append(...) not found")
+    val = inline(emits[0].args[0], {k: v for k, v in lenv.items() if k == "synergy"})
+    effs = None
+    if isinstance(val, ast.BinOp) and isinstance(val.op, ast.Sub) and isinstance(val.left, ast.Call) and call_name(val.left) in ("np.prod", "np.product") and len(val.left.args) == 1 \
+            and isinstance(val.left.args[0], ast.Name):
+        effs = val.left.args[0].id
+    ctx.check("R4", f"{f.site()}::bliss", effs is not None and U(val.right) == obs_var, "synergy = prod(single effects) - observation", f"synergy is `{U(val)}`")
+    if effs is None:
+        return
+    # the lookup loop: a loop whose body tests membership in the effect map
+    inner = [n for n in walk_own(lp) if isinstance(n, ast.For) and n is not lp and any(isinstance(x, ast.Compare) and isinstance(x.ops[0], (ast.In, ast.NotIn)) and U(x.comparators[0]) == MAP for x in ast.walk(n))]
+    ctx.need(len(inner) == 1, f"{f.site()}: the per-treatment effect lookup loop was not found")
+    il = inner[0]
+    ienv = {n.targets[0].id: n.value for n in il.body if isinstance(n, ast.Assign) and isinstance(n.targets[0], ast.Name)}
+    conds = stmt_conditions(il.body)
+
+    def classify(cs):
+        present = strict = None
+        for t, pol in cs:
+            tt = inline(t, ienv)
+            if isinstance(tt, ast.Compare) and len(tt.ops) == 1 and isinstance(tt.ops[0], (ast.In, ast.NotIn)) and U(tt.comparators[0]) == MAP:
+                present = pol if isinstance(tt.ops[0], ast.In) else (not pol)
+                key = U(tt.left).replace(" ", "")
+                if key != f"({sid_var},{U(il.target)})":
+                    present = "badkey"
+            elif U(tt) == "strict":
+                strict = pol
+            elif U(tt) == "not strict":
+                strict = not pol
+        return present, strict
+    appends = []          # list name the effects are collected into
+    raises_ok = False
+    lenient_marks = []    # what the lenient missing path does: ('skip-append',) or ('flag', name)
+    bad = []
+    for st_ in [x for b_ in il.body for x in ast.walk(b_) if isinstance(x, ast.stmt)]:
+        if id(st_) not in conds:
+            continue
+        present, strict = classify(conds[id(st_)])
+        if present == "badkey":
+            bad.append("the membership test is not keyed by (row sample, treatment)")
+            continue
+        if isinstance(st_, ast.Expr) and isinstance(st_.value, ast.Call) and attr_tail(st_.value) == "append":
+            src = U(inline(st_.value.args[0], ienv)).replace(" ", "")
+            if present is True and src in (f"{MAP}[({sid_var},{U(il.target)})]", f"{MAP}[{sid_var},{U(il.target)}]"):
+                appends.append(U(st_.value.func.value))
+            else:
+                bad.append(f"`{U(st_)[:60]}` appends outside the key-present path or not the looked-up effect")
+        if isinstance(st_, ast.Raise) and present is False and strict is True:
+            raises_ok = True
+        if isinstance(st_, ast.Assign) and present is False and strict in (False, None) and isinstance(st_.value, ast.Constant) and st_.value.value is False and isinstance(st_.targets[0], ast.Name):
+            lenient_marks.append(("flag", st_.targets[0].id))
+    ok = raises_ok and len(set(appends)) == 1 and not bad
+    ctx.check("R4", f"{f.site()}::strict-vs-lenient", ok, "missing single-agent effect: strict raises, lenient does not use it",
+              f"a missing (sample, treatment) effect is not handled as strict => raise / lenient => skip ({bad or 'no raise on the strict missing path' if not raises_ok else appends})")
+    if not ok:
+        return
+    coll = appends[0]
+    # skip rule: the emission is unreachable for a row with a missing effect
+    econds = stmt_conditions(lp.body).get(id(next(x for x in lp.body if emits[0] in list(ast.walk(x)))), [])
+    skip_ok = False
+    shown = [U(t) for t, _ in econds]
+    ids_iter = U(il.iter)
+    for t, pol in econds:
+        tt = inline(t, {k: v for k, v in lenv.items() if k not in (coll, ids_iter)})
+        # idiom A: number of effects differs from number of treatments -> continue
+        if N.b(tt) in (N.b(parse_expr(f"len({ids_iter}) != len({coll})")), N.b(parse_expr(f"len({coll}) != len({ids_iter})")),
+                       N.b(parse_expr(f"len({coll}) < len({ids_iter})"), integer=True)) and pol is False:
+            skip_ok = True
+        if N.b(tt) in (N.b(parse_expr(f"len({ids_iter}) == len({coll})")),) and pol is True:
+            skip_ok = True
+        # idiom B: a completeness flag, True before the lookup loop, set False on the missing path
+        for kind, flag in lenient_marks:
+            init = [n for n in lp.body if isinstance(n, ast.Assign) and U(n.targets[0]) == flag and isinstance(n.value, ast.Constant) and n.value.value is True and n.lineno < il.lineno]
+            if not init:
+                continue
+            forms_skip = (N.b(parse_expr(f"not {flag}")),)
+            # `x = coll if flag else None ; if x is None: continue`
+            if N.b(tt) in forms_skip and pol is False:
+                skip_ok = True
+            if N.b(tt) == N.b(parse_expr(flag)) and pol is True:
+                skip_ok = True
+            if isinstance(tt, ast.Compare) and isinstance(tt.left, ast.IfExp) and U(tt.left.test) == flag and U(tt.left.orelse) == "None" and U(tt.left.body) == coll \
+                    and isinstance(tt.ops[0], ast.Is) and U(tt.comparators[0]) == "None" and pol is False:
+                skip_ok = True
+    ctx.check("R4", f"{f.site()}::skip-incomplete-rows", skip_ok, "a row is skipped unless every non-control treatment has a single-agent effect",
+              f"the tests before the synergy are {shown}: a row lacking only some of its single-agent effects must be skipped too "
               f"(otherwise the missing agent silently counts as effect 1)")
-    # strict raises / lenient continues on a missing key
-    inner = [n for n in walk_own(lp) if isinstance(n, ast.If) and isinstance(n.test, ast.Compare) and isinstance(n.test.ops[0], ast.NotIn)]
-    ok = False
-    if len(inner) == 1:
-        b = inner[0].body
-        if len(b) == 1 and isinstance(b[0], ast.If) and U(b[0].test) == "strict":
-            ok = isinstance(b[0].body[-1], ast.Raise) and any(isinstance(x, ast.Continue) for x in b[0].orelse)
-        key = U(inner[0].test.left).replace(" ", "")
-        ok = ok and key == "(current_sample_id,current_treatment_id)" and U(inner[0].test.comparators[0]) == "single_treatment_effect_map"
-    ctx.check("R4", f"{f.site()}::strict-vs-lenient", ok, "missing single-agent effect: strict raises, lenient skips that lookup",
-              "a missing (sample, treatment) effect is not handled as strict => raise / lenient => skip")
 
 
 def r5(ctx):
